@@ -221,6 +221,7 @@ var getterTypes = map[int][]int{
 
 func runC07(o *out, thorough bool, r *rng, _ []string) map[string]interface{} {
 	sharedDestinationMonitor(o, r, 300)
+	destinationChainMonitor(o, r, 1500)
 	lookupCases(o, r, 600) // getters run through ForEach: a failing callback must not leave the message truncated
 	reps := 2
 	if thorough {
@@ -312,6 +313,10 @@ func runC07(o *out, thorough bool, r *rng, _ []string) map[string]interface{} {
 		data := append([]byte(nil), m.Raw...)
 		if r.chance(1, 3) {
 			data[r.intn(len(data))] ^= 1 << uint(r.intn(8))
+		}
+		if i%3 == 1 {
+			// bytes after the declared length: Decode tolerates them and keeps them in Raw; a check leaves them there
+			data = append(data, r.bytes(r.pick([]int{1, 4, 8, 12, 20}))...)
 		}
 		ex := fill(r, r.pick([]int{0, 0, 7, 19, 20, 21, 64}), r.intn(3))
 		o.run(701, []string{fHex(data), fHex(ex), fNums(6, 8), fHex(key)}, true)
@@ -526,6 +531,93 @@ func runC06(o *out, thorough bool, r *rng, _ []string) map[string]interface{} {
 // sharedDestinationMonitor: one destination value used for message 1 and then for message 2.  Getters that
 // return views (text attributes, ERROR-CODE reason) or reuse storage must not write through the
 // destination into message 1, and must deliver message 2's value.
+// destinationChainMonitor: a few decoded messages whose address / text / error attributes are well formed
+// or cut short, and ONE destination per getter kind reused for a random chain of calls over them (also
+// through GetFromAs with the other attribute types).  After every call every message is what it was.
+func destinationChainMonitor(o *out, r *rng, n int) {
+	for i := 0; i < n; i++ {
+		var msgs []*stun.Message
+		var snaps []string
+		for k := 0; k < 3; k++ {
+			var body []byte
+			for _, t := range []int{0x0001, 0x0020, 0x8023, 0x0004, 0x0009, 0x0006, 0x8022} {
+				var v []byte
+				switch r.intn(5) {
+				case 0: // IPv4 address value
+					v = append([]byte{0, 1, byte(r.intn(256)), byte(r.intn(256))}, r.bytes(4)...)
+				case 1: // IPv6 address value
+					v = append([]byte{0, 2, byte(r.intn(256)), byte(r.intn(256))}, r.bytes(16)...)
+				case 2: // family says IPv6 / IPv4, the address is cut short
+					v = append([]byte{0, byte(1 + r.intn(2)), 0x0d, 0x96}, r.bytes(r.intn(4))...)
+				case 3:
+					v = append([]byte{0, 0, byte(3 + r.intn(4)), byte(r.intn(100))}, r.bytes(r.intn(20))...)
+				default:
+					v = r.bytes(r.intn(24))
+				}
+				body = append(body, r.tlv(t, v, len(v))...)
+			}
+			data := append(header(0x0101, len(body), r.bytes(12)), body...)
+			m := new(stun.Message)
+			if stun.Decode(data, m) != nil {
+				continue
+			}
+			msgs = append(msgs, m)
+			snaps = append(snaps, fmt.Sprint(serMsg(m)))
+		}
+		if len(msgs) == 0 {
+			continue
+		}
+		var ma stun.MappedAddress
+		var xa stun.XORMappedAddress
+		var un stun.Username
+		var sw stun.Software
+		var ec stun.ErrorCodeAttribute
+		trace := ""
+		for step := 0; step < 10; step++ {
+			k := r.intn(len(msgs))
+			m := msgs[k]
+			t := stun.AttrType(r.pick([]int{0x0001, 0x0020, 0x8023, 0x0004}))
+			kind := r.intn(5)
+			trace += fmt.Sprintf(" %d:%d:%#x", kind, k, int(t))
+			pan, _ := guarded(func() {
+				switch kind {
+				case 0:
+					_ = ma.GetFromAs(m, t)
+				case 1:
+					_ = xa.GetFromAs(m, t)
+				case 2:
+					_ = un.GetFrom(m)
+				case 3:
+					_ = sw.GetFrom(m)
+				default:
+					_ = ec.GetFrom(m)
+				}
+			})
+			if pan {
+				o.failFor("C07", "getter-panic", "x chain"+trace+" on "+fHex(m.Raw))
+				break
+			}
+			changed := -1
+			for j := range msgs {
+				if fmt.Sprint(serMsg(msgs[j])) != snaps[j] {
+					changed = j
+				}
+			}
+			if changed >= 0 {
+				o.failFor("C07", "getter-writes-into-a-message", fmt.Sprintf("x chain (getter:message:type)%s changed message %d; messages:", trace, changed)+func() string {
+					out := ""
+					for _, mm := range msgs {
+						out += " " + fHex(mm.Raw)
+					}
+					return out
+				}())
+				break
+			}
+		}
+		o.count("destination-chains")
+	}
+}
+
 func sharedDestinationMonitor(o *out, r *rng, n int) {
 	for i := 0; i < n; i++ {
 		mk := func() *stun.Message {
